@@ -47,3 +47,19 @@ let () = register "mef2" (fun () ->
   let i = next_mef () in let sub = next_list m_edge in let eps = next_q () in let opt = next_q () in
   let nv = next_nat () in
   if mef_ok i then print_milp (encode_mef2 i sub eps opt nv) else print_endline "ERROR ValueError")
+
+(* ---- <cmd>_eq: same request followed by the implementation's LP; decided by the extracted VERIFIED checker
+   LinEquiv.milp_equiv_b (lp.ml.in: next_milp / equiv_report) ---- *)
+let () = register "mgsenc_eq" (fun () -> let k = next_nat () in let i = next_mgs () in equiv_report (encode_mgs i k))
+let () = register "msc_eq" (fun () ->
+  let u = next_list next_n in let ss = next_list (fun () -> next_list next_n) in
+  let w = if next_bool () then Some (next_list next_q) else None in
+  match encode_msc { sc_universe = u; sc_subsets = ss; sc_weights = w } with
+  | Some m -> equiv_report m
+  | None -> print_endline "0")
+let () = register "mef_eq" (fun () ->
+  let i = next_mef () in if mef_ok i then equiv_report (encode_mef i) else print_endline "0")
+let () = register "mef2_eq" (fun () ->
+  let i = next_mef () in let sub = next_list m_edge in let eps = next_q () in let opt = next_q () in
+  let nv = next_nat () in
+  if mef_ok i then equiv_report (encode_mef2 i sub eps opt nv) else print_endline "0")
